@@ -20,11 +20,26 @@ fn q_names(obj: &Obj, rng: &mut Rng) -> Vec<Vec<u8>> {
             v.push(s.name.clone());
         }
     }
+    v.truncate(3);
+    // names that no section can have: two (three) adjacent string-table entries glued by their NULs, and the null
+    // section's empty name glued to the first entry — equal, as a byte run, to what sits at some sh_name
+    let named: Vec<&Vec<u8>> = obj.secs.iter().skip(1).map(|s| &s.name).filter(|n| !n.is_empty() && std::str::from_utf8(n).is_ok()).collect();
+    if named.len() >= 2 {
+        let i = rng.below(named.len() as u64 - 1) as usize;
+        let mut g = named[i].clone();
+        g.push(0);
+        g.extend(named[i + 1]);
+        if rng.chance(1, 2) && i + 2 < named.len() { g.push(0); g.extend(named[i + 2]); }
+        v.push(g);
+        let mut z = vec![0u8];
+        z.extend(named[0]);
+        v.push(z);
+    }
     v.push(b".nosuch".to_vec());
     v.push(b".tex".to_vec());
     v.push(b".text.hot".to_vec());
     v.push(vec![]);
-    v.truncate(6);
+    v.truncate(8);
     v
 }
 
@@ -151,10 +166,28 @@ pub fn rand_object_kind(rng: &mut Rng, rich: bool, full: bool) -> FileCase {
             let mut s = Sec::new(b".gnu.version", SHT_GNU_VERSYM, vs);
             s.entsize = 2; s.link = di as u32; s.addralign = 2;
             o.add_sec(s);
+            let dup = rng.chance(1, 4);
+            if dup {
+                // a second section of the same type with other contents (no linker emits this; the two parsers must
+                // still agree on which one a query uses)
+                let mut vs2 = vec![];
+                for v in m.versym.iter().rev() { put(&mut vs2, le, 2, (*v ^ 1) as u64); }
+                put(&mut vs2, le, 2, 2);
+                let mut s = Sec::new(b".gnu.version2", SHT_GNU_VERSYM, vs2);
+                s.entsize = 2; s.link = di as u32; s.addralign = 2;
+                o.add_sec(s);
+                kinds.push("dup-versym");
+            }
             if !m.needs.is_empty() || rng.chance(1, 3) {
                 let mut s = Sec::new(b".gnu.version_r", SHT_GNU_VERNEED, build_verneed(le, &m.needs, &str_off, inter, gap));
                 s.link = dsi as u32; s.info = m.needs.len() as u32; s.addralign = 4;
                 o.add_sec(s);
+                if dup && m.needs.len() >= 2 {
+                    let rev: Vec<_> = m.needs.iter().rev().cloned().collect();
+                    let mut s = Sec::new(b".gnu.version_r2", SHT_GNU_VERNEED, build_verneed(le, &rev[..rev.len() - 1], &str_off, inter, gap));
+                    s.link = dsi as u32; s.info = (rev.len() - 1) as u32; s.addralign = 4;
+                    o.add_sec(s);
+                }
             }
             if !m.defs.is_empty() || rng.chance(1, 3) {
                 if rng.chance(1, 3) {
